@@ -3,6 +3,7 @@ package checks
 import (
 	"encoding/binary"
 	"fmt"
+	"os"
 	"strings"
 
 	"github.com/gogpu/naga"
@@ -360,7 +361,16 @@ func c06Syntax(r *explore.Run) {
 
 func runC06() int {
 	r := explore.New("C06")
+	only := os.Getenv("VERIF_C06_ONLY") // authoring aid: run one sub-space (no registered command sets it)
+	if only != "" {
+		c06xOnly(r, only)
+		printKeys(r)
+		return r.Finish("authoring run of sub-space "+only, nil)
+	}
 	c06Syntax(r)
+	c06xNotRepresentable(r)
+	c06xChains(r)
+	c06xStructure(r)
 	fam := wgen.F6c()
 	r.Extra("family_F6c", fam.Count)
 	r.ParallelFor(fam.Count, func(i int) {
@@ -379,7 +389,8 @@ func runC06() int {
 		r.Sample(map[string]any{"case": c.Sig, "source_prefix": trunc(wgen.Print(c.Mod), 700)})
 	}
 	printKeys(r)
-	return r.Finish("every F1 operator/builtin/conversion/select on every operand tuple of its alphabet written as literals (suffixed; bare abstract literals with operands on which abstract and concrete arithmetic coincide; named constants) in the value contexts {folded let sub-expression, module const, function const, named constant operands}, scalar and vector/matrix shapes: the compiled constant program is executed (lowered module by the IR interpreter, SPIR-V by the SPIR-V interpreter) and must equal the reference evaluator's run-time value of the same expression. For scalar specs additionally the non-value contexts: const_assert E == v accepted for the WGSL value and rejected for another value, switch case selector (the case labelled E is taken for selector v), array size (element count in the lowered module) and @workgroup_size (LocalSize). Integer / and % by zero must be rejected in every context and shape. distinct = distinct constant result buffers",
+	return r.Finish("every F1 operator/builtin/conversion/select on every operand tuple of its alphabet written as literals (suffixed; bare abstract literals with operands on which abstract and concrete arithmetic coincide; named constants) in the value contexts {folded let sub-expression, module const, function const, named constant operands}, scalar and vector/matrix shapes: the compiled constant program is executed (lowered module by the IR interpreter, SPIR-V by the SPIR-V interpreter) and must equal the reference evaluator's run-time value of the same expression. For scalar specs additionally the non-value contexts: const_assert E == v accepted for the WGSL value and rejected for another value, switch case selector (the case labelled E is taken for selector v), array size (element count in the lowered module) and @workgroup_size (LocalSize). Integer / and % by zero must be rejected in every context and shape. Values not representable in the required type (abstract literals, abstract arithmetic, named abstract constants out of range for i32/u32/f32 in 9 conversion contexts; out-of-range suffixed literals; AbstractInt overflow; f32 constant-expression overflow) must be rejected. F6c2 (chains through named constants): every type-compatible triple (op1, op2, operand position) of the scalar exactly-specified operators/builtins/conversions/bitcasts/select over i32/u32/f32/bool, in suffixed and abstract literal style, with A = op1(literals) bound by name and consumed by op2; operand tuples chosen so that A reaches every value class op1 can reach on its alphabet (0, 1, -1, negative, INT_MIN, INT_MAX, UINT_MAX, 2^31, above 2^31, fractional, large, true/false) x <= 2 (quick) / 4 (thorough) boundary valuations of op2's other operands; A placed as module const with/without explicit type, function const with/without type, let; consumer placed as statement sub-expression, module const with/without type, function const, array size, case selector, const_assert (true accepted / false rejected, module and function scope), @workgroup_size (29 layouts). F6c3 (structural folds): every constructor shape of vecN (N=2..4, all compositions of N into scalar and vector arguments x each vector argument flat / splat / zero value / inferred / converted from another element type / nested one level deeper / named constant; whole-vector splat, zero, conversion, identity, inferred), matCxR (from columns in those argument forms, from scalars, zero, identity, inferred), arrays (typed / inferred / zero; scalar, vector, array, matrix, struct elements, N<=4) and structs (incl. nested, with vector/array/matrix members) x every access form (each swizzle letter xyzw/rgba, constant index in i32/u32/abstract spelling, all 2-letter swizzles, 3-/4-letter swizzles (distinct-letter, constant and end-repeat patterns quick; all thorough), swizzle of swizzle, index of swizzle, index of index, member access and their compositions) x constructor inline or bound as module const / function const (typed and untyped) / let x the same consumer contexts (36 layouts); component values pairwise distinct boundary values. Every item is judged separately (batches are split until a whole-program failure is attributed to single items); failing items are attributed to the smallest part that fails on its own (first link, second link, computed constant in the context, named literal operand; flat-constructor access, constructor stored whole) and otherwise reported as interaction failures with exact keys. distinct = distinct constant result buffers / expected-value vectors",
 		[]string{"compile-time and run-time evaluation are defined by WGSL to agree for concrete types on these alphabets; shifts are confined to counts < 32 and non-overflowing left operands, float->int conversions to in-range values",
-			"f16 literals and AbstractFloat-only matrix constructors are not enumerated (documented limit)"})
+			"f16 literals and AbstractFloat-only matrix constructors are not enumerated (documented limit)",
+			"F6c2/F6c3: concrete integer arithmetic wraps in constant expressions as at run time; abstract-style chains are confined to operands (|v| <= 2^15, dyadic floats) for which abstract and concrete evaluation coincide; approximately specified operations are used only as the last link (thorough tier) with tolerance and only on their own alphabet; results that are inf/nan/subnormal and intermediates equal to -0.0 are skipped"})
 }
